@@ -21,7 +21,8 @@ RULE = ('small generated samples (N in 1..5, D in 1..4, distinct metadata in eve
         'Ellipsis} x cols {absent,int,-int,name,slice,list/tuple mixing names and ints,single-element list,Ellipsis} '
         '(exhaustive), other forms (bool column lists, NumPy-integer positions, int arrays, None/newaxis, nested lists, '
         '1-tuples, unknown names, out-of-range positions), chains of <=3 indexings, assignment; non-trivial = column key '
-        'reorders, repeats or drops columns; distinct = (shape, key)')
+        'reorders, repeats or drops columns; distinct = (shape, key)'
+        ' Also: files recording a channel name twice (positional keys), name-based warm-up queries before the judged key, chains biased to rearrange-then-name.')
 ASSUMPTIONS = ['NumPy indexing of the plain array is the value oracle', 'results with ndim >= 3 are not judged',
                'sub-indexing of 1-D event vectors: values compared, metadata observed only']
 MIN_CHECKS = {'quick': 20000, 'thorough': 400000}
